@@ -280,6 +280,10 @@ func (f *framer) Handle0RTTRejection() {
 	for id := range f.activeStreams {
 		delete(f.activeStreams, id)
 	}
+	// the streams opened in 0-RTT don't exist anymore: their control frames (e.g. RESET_STREAM) must not be sent
+	for id := range f.streamsWithControlFrames {
+		delete(f.streamsWithControlFrames, id)
+	}
 	var j int
 	for i, frame := range f.controlFrames {
 		switch frame.(type) {
